@@ -10,8 +10,8 @@ For the ecocredit family every entry names
   gen     : list of (cfg, behaviours, depth) to simulate for the quick tier
 """
 
-ECO_GEN_Q = [("credits_g", 32, 20), ("market_g", 64, 25), ("basket_g", 32, 25), ("basket2_g", 16, 20), ("basket3_g", 16, 20), ("roles_g", 24, 20), ("bridge_g", 32, 20), ("params_g", 40, 20)]
-ECO_GEN_T = [("credits_g", 300, 30), ("market_g", 500, 30), ("basket_g", 300, 30), ("basket2_g", 150, 25), ("basket3_g", 150, 25), ("roles_g", 200, 25), ("bridge_g", 300, 25), ("params_g", 300, 25)]
+ECO_GEN_Q = [("credits_g", 32, 20), ("market_g", 56, 25), ("expiry_g", 32, 20), ("basket_g", 32, 25), ("basket2_g", 16, 20), ("basket3_g", 16, 20), ("roles_g", 24, 20), ("bridge_g", 32, 20), ("params_g", 32, 20), ("sellerfee_g", 12, 15), ("buyerfee_g", 12, 15)]
+ECO_GEN_T = [("credits_g", 300, 30), ("market_g", 500, 30), ("expiry_g", 300, 25), ("basket_g", 300, 30), ("basket2_g", 150, 25), ("basket3_g", 150, 25), ("roles_g", 200, 25), ("bridge_g", 300, 25), ("params_g", 300, 25), ("sellerfee_g", 100, 20), ("buyerfee_g", 100, 20)]
 
 PROFILES = [
     {"unit": "1000000", "render": 0},   # whole credits, plain decimals
@@ -23,21 +23,21 @@ PROFILES = [
 PROPS = {
     "C01": dict(
         family="eco",
-        mc=[("credits_q", 120), ("market_q", 300)],
+        mc=[("credits_q", 120), ("market_q", 300)], mc_t=[("credits_t", 600), ("market_t", 1800)],
         inv=["C01_Conservation", "C01_NoOrphans", "C01_NonNegative"],
         step=[],
         tinv=["T_C01_WellFormed", "T_C01_ChainInvariantAgrees"],
     ),
     "C02": dict(
         family="eco",
-        mc=[("credits_q", 120), ("market_q", 300)],
+        mc=[("credits_q", 120), ("market_q", 300)], mc_t=[("credits_t", 600), ("market_t", 1800)],
         inv=["C02_Accounting"],
         step=["C02_OnlyIssuers", "C02_SealedFrozen"],
         tinv=[],
     ),
     "C03": dict(
         family="eco",
-        mc=[("credits_q", 120), ("market_q", 300)],
+        mc=[("credits_q", 120), ("market_q", 300)], mc_t=[("credits_t", 600), ("market_t", 1800)],
         inv=[],
         step=["C03_Credits", "C03_Coins", "C03_Block"],
         tinv=[],
@@ -51,14 +51,14 @@ PROPS = {
     ),
     "C06": dict(
         family="eco",
-        mc=[("market_q", 300)],
+        mc=[("market_q", 300)], mc_t=[("market_t", 1800)],
         inv=["C06_Escrow", "C06_OrderWellFormed"],
         step=["C06_DenomAllowedAtWrite"],
         tinv=["T_C06_OrderQuantitiesWellFormed"],
     ),
     "C07": dict(
         family="eco",
-        mc=[("market_q", 300)],
+        mc=[("market_q", 300)], mc_t=[("market_t", 1800), ("params_t", 900)],
         inv=[],
         step=["C07_Orders", "C07_Credits", "C07_Coins", "C07_NoOtherCoins"],
         tinv=[],
@@ -72,35 +72,35 @@ PROPS = {
     ),
     "C12": dict(
         family="eco",
-        mc=[("market_q", 300)],
+        mc=[("market_q", 300)], mc_t=[("market_t", 1800)],
         inv=["C12_NoneExpired"],
         step=["C12_Expiry", "C12_NoBuyExpired", "C12_ExpirationAsRequested"],
         tinv=["T_C12_BlockNeverFails"],
     ),
     "C08": dict(
         family="eco",
-        mc=[("roles_q", 120), ("allow_q", 60), ("market_q", 300)],
+        mc=[("roles_q", 120), ("allow_q", 60), ("market_q", 300)], mc_t=[("roles_t", 600), ("allow_q", 60), ("market_q", 600)],
         inv=[],
         step=["C08_Authorised", "C08_Footprint", "C08_SealedStaysSealed"],
         tinv=[],
     ),
     "C13": dict(
         family="eco",
-        mc=[("bridge_q", 200)],
+        mc=[("bridge_q", 200)], mc_t=[("bridge_t", 900)],
         inv=["C13_AtMostOnce", "C13_ContractsUnique"],
         step=["C13_AllowedSource", "C13_BindingPermanent", "C13_ReceiveIntoBound", "C13_BridgeOut"],
         tinv=[],
     ),
     "C14": dict(
         family="eco",
-        mc=[("roles_q", 120), ("allow_q", 60), ("bridge_q", 200), ("credits_q", 120)],
+        mc=[("roles_q", 120), ("allow_q", 60), ("bridge_q", 200), ("credits_q", 120)], mc_t=[("roles_t", 600), ("allow_q", 60), ("bridge_t", 900), ("credits_t", 600)],
         inv=["C14_Unique", "C14_References", "C14_Format"],
         step=["C14_Consecutive"],
         tinv=[],
     ),
     "C18": dict(
         family="eco",
-        mc=[("params_q", 300), ("zerofee_q", 60)],
+        mc=[("params_q", 300), ("zerofee_q", 60)], mc_t=[("params_t", 900), ("zerofee_q", 60)],
         inv=[],
         step=["C18_FeeExact", "C18_NoFeatureDisabled"],
         tinv=[],
@@ -127,14 +127,14 @@ PROPS = {
     ),
     "C20": dict(
         family="intertx", mc_module="MC_Intertx", trace_module="TraceIntertx",
-        mc=[("intertx_q", 120)],
+        mc=[("intertx_q", 120)], mc_t=[("intertx_t", 600)],
         inv=["C20_OwnPort"], step=["C20_Forward"], tinv=["T_C20_NoPanic"],
         gen=[("intertx_g", 40, 25)], gen_t=[("intertx_g", 400, 30)],
     ),
     "C15": dict(family="iri", mc=[], inv=[], step=[], tinv=[]),
     "C16": dict(
         family="data", mc_module="MC_Data", trace_module="TraceData",
-        mc=[("data_q", 300), ("data_buckets_q", 300), ("data_equal_q", 300)],
+        mc=[("data_q", 300), ("data_buckets_q", 300), ("data_equal_q", 300)], mc_t=[("data_t", 1500), ("data_buckets_q", 300), ("data_equal_q", 300)],
         inv=["C16_IdInjective", "C16_RowsReferToIds"],
         step=["C16_Stable", "C16_FirstTime", "C16_Responses", "C16_ManagerOnly", "C16_Footprint"],
         tinv=[],
@@ -152,7 +152,7 @@ PROPS = {
     ),
     "C04": dict(
         family="eco",
-        mc=[("credits_q", 120), ("market_q", 300)],
+        mc=[("credits_q", 120), ("market_q", 300)], mc_t=[("credits_t", 600), ("market_t", 1800)],
         inv=[],
         step=["C04_Permanence"],
         tinv=[],
